@@ -98,6 +98,9 @@ def check_C08(c):
 
 
 def check_C13(c):
+    for k in ("valid", "trailing", "truncated", "corrupt"):
+        c.model_check("MC_InflateStream", "MC_InflateStream_%s.cfg" % k, workers=4)
+    c.model_check("MC_InflateStream", "MC_InflateStream_live.cfg", workers=4)
     c.scenario("inflate_protocol")
     return c.finish("model_checking", RULE_DEC, TRUST)
 
